@@ -64,8 +64,10 @@ def _single_parallel(con) -> bool:
     return False
 
 
-def make_harness(leaves: int, depth: int, symbols, allow_single_parallel: bool, drawing: bool):
+def make_harness(leaves: int, depth: int, symbols, allow_single_parallel: bool, drawing: bool, plain: bool = False):
     def harness(eng):
+        if plain:
+            eng.scratch["labelled"] = 0
         from pyimpspec.circuit.circuit import Circuit
         import pyimpspec.circuit.diagrams  # noqa: F401  (attaches to_circuitikz / to_drawing)
         con = gen(eng, leaves, depth, symbols, allow_single_parallel)
@@ -75,9 +77,10 @@ def make_harness(leaves: int, depth: int, symbols, allow_single_parallel: bool, 
         nh = eng.real("node_height")
         eng.assume(nw > 0)
         eng.assume(nh > 0)
-        running = eng.choice(2, "running") == 1
+        running = (eng.choice(2, "running") == 1) if not plain else False
         ok, src = call(circuit.to_circuitikz, node_width=nw, node_height=nh, running=running)
-        eng.check(ok, "to_circuitikz succeeds", lambda: "%s: %r" % (circuit.to_string(), src))
+        label_ok = "to_circuitikz succeeds" + (" (circuit with a single-item parallel connection)" if _single_parallel(con) else "")
+        eng.check(ok, label_ok, lambda: "%s: %r" % (circuit.to_string(), src))
         eng.reached("circuitikz")
         if ok:
             eng.check(src.count("\\begin{circuitikz}") == 1 and src.count("\\end{circuitikz}") == 1 and src.strip().endswith("\\end{circuitikz}"),
@@ -114,7 +117,7 @@ def make_harness(leaves: int, depth: int, symbols, allow_single_parallel: bool, 
 
 
 def _key(witness, label):
-    if label == "to_circuitikz succeeds":
+    if label == "to_circuitikz succeeds (circuit with a single-item parallel connection)":
         return "parallel connection with a single item (direct construction only)"
     return label
 
@@ -130,6 +133,9 @@ def obligations(tier: str):
         Obligation("shapes", make_harness(3 if quick else 4, 1 if quick else 2, ["R"], False, drawing=not quick),
                    bounds="every parser-reachable nest (parallel >= 2 items) of <= %d resistors, depth <= %d, labels none/all/alternating; node_width/node_height symbolic > 0"
                           % (3 if quick else 4, 2 if quick else 3), functions=funcs, expect_reach=["circuitikz", "exports"], max_paths=2000000, key=_key),
+        Obligation("deep", make_harness(4, 2, ["R"], False, drawing=False, plain=True),
+                   bounds="every parser-reachable nest of <= 4 unlabelled resistors with three levels of nesting (e.g. a series inside a parallel ending in a parallel)",
+                   functions=funcs, expect_reach=["circuitikz", "exports"], max_paths=2000000, key=_key),
         Obligation("direct", make_harness(2 if quick else 3, 1, ["R", "C"], True, drawing=False),
                    bounds="direct construction incl. connections with a single item, <= %d leaves" % (2 if quick else 3), functions=funcs,
                    expect_reach=["circuitikz", "exports"], max_paths=2000000, key=_key),
